@@ -209,8 +209,8 @@ def check_book(case: Dict[str, Any], r: Dict[str, Any], refs) -> Optional[str]:
         floating_ok = bool(re.search(r"\bif\b|\.Min\(|\.Max\(|Min\(|Max\(|\*\*", col[0])) or bool(_MATH_CALL.search(col[0]))
         if kinds == {"bool"} and tc != "bool" and not floating_ok:
             return f"column {br['name']}: values are booleans, booked {br['type']} ({col[0][:80]})"
-        if kinds == {"int"} and tc == "float" and re.search(r"Sum\(|Aggregate\(", col[0]) and all(x == 0 for v in vals for x in _flat(v)):
-            continue  # a sum over an empty floating sequence is Python's integer seed 0: says nothing about the column's class
+        if kinds == {"int"} and tc == "float" and re.search(r"Sum\(|Aggregate\(", col[0]) and len({x for v in vals for x in _flat(v)}) <= 1:
+            continue  # an aggregate over floating sequences that were empty in every event is Python's integer seed (0, -2 ...): says nothing about the column's class
         if kinds == {"int"} and tc != "int" and not floating_ok:
             return f"column {br['name']}: values are integers, booked {br['type']} ({col[0][:80]})"
         if "float" in kinds and tc != "float":
